@@ -126,7 +126,7 @@ class C20(Driver):
                 st = {"k": k, "ms": r.choice([0, 1, 2, 3, 5, 8, 13])}
                 if r.random() < 0.04:
                     # many threads finish while this thread is not in its loop: their completions arrive in one burst
-                    st = {"k": "thread-burst", "ms": r.choice([1, 3]), "n": r.choice([17, 33, 65, 70, 129, 200])}
+                    st = {"k": "thread-burst", "ms": r.choice([1, 3]), "n": r.choice([17, 33, 65, 70, 129, 200, 257, 300])}
                 if k == "proc":
                     st["code"] = r.choice([0, 1, 9])
                 if k in ("chan-pair", "pipe-pair"):
